@@ -73,6 +73,20 @@ def step (line : String) : String :=
       | .ok (nm, file) => "OK " ++ hexOrDash nm ++ " " ++ hexOrDash file
       | .error e => "E:" ++ e.toString
     | _, _, _, _, _, _, _, _ => "bad-op"
+  | ["branch", flt, cs, bits, w, h] =>
+    let csl : Option (List (Option InlineDict.Val)) :=
+      if cs == "none" then some [none] else if cs == "empty" then some []
+      else match parseVals (cs.splitOn ",") [] with
+        | some (vs, []) => some (vs.map some)
+        | _ => none
+    match fltsOf flt, csl, bits.toNat?, w.toNat?, h.toNat? with
+    | some fl, some cs, some bits, some w, some h =>
+      let im : ImgIn := ⟨fl, InlineDict.csClass cs, InlineDict.cmykMember cs, bits, w, h, [], []⟩
+      let b := branchOf im
+      match bmpArgsOf b im with
+      | some (bpl, depth) => b.toString ++ " bpl=" ++ toString bpl ++ " depth=" ++ toString depth
+      | none => b.toString
+    | _, _, _, _, _ => "bad-op"
   | ["readbmp", file] =>
     match bytesOfHex file with
     | some b =>
